@@ -111,6 +111,15 @@ BodyChecks(e) ==
         <<"otherkey", ~Verifies(ver, T, I, sl, HexToBytes(e.pk2))>> >>
 
 \* --------------------------------------------------------------------- Send
+\* Wallet.Send chooses the expiry itself (now + message lifetime): the event then carries the window [vu, vu_hi] the harness
+\* measured around the call instead of one requested value
+BitsLeq(a, b) == a = b \/ \E i \in 1..Len(a) : a[i] < b[i] /\ SubSeq(a, 1, i - 1) = SubSeq(b, 1, i - 1)
+ExpiryOK(e, bits) == IF Has(e, "vu_hi") THEN BitsLeq(UDec(e.vu, 32), bits) /\ BitsLeq(bits, UDec(e.vu_hi, 32)) ELSE bits = UDec(e.vu, 32)
+\* (mode, hash) pairs of messages the library returned as rows of the harness's table of the payload; a cell that is not
+\* part of the payload (row -1) has no hash
+Pairs(md, rw, EI) == [i \in 1..Len(md) |-> <<md[i], IF i <= Len(rw) /\ rw[i] >= 0 /\ rw[i] < Len(EI) THEN ReprHash(EI[rw[i] + 1]) ELSE <<>> >>]
+SeqOK(sq, EI, want) == \A i \in 1..Len(sq) : /\ sq[i].res = "ok"
+                                              /\ (sq[i].op # "verify" => Pairs(sq[i].modes, sq[i].rows, EI) = want)
 LibWid(ver, w) == IF Family(ver) = "v5beta" THEN HexBits(w) ELSE UDec(w, 32)
 SendChecks(e) ==
   LET ver == e.ver
@@ -146,7 +155,7 @@ SendChecks(e) ==
                       /\ (X.init.present <=> e.withinit)>>,
         <<"extract",  ex.ok>>,
         <<"wid",      ex.ok => ex.wid = WalletIdBits(ver, e.opts)>>,
-        <<"expiry",   ex.ok => ex.vu = UDec(e.vu, 32)>>,
+        <<"expiry",   ex.ok => ExpiryOK(e, ex.vu)>>,
         <<"seqno",    (ex.ok /\ Family(ver) # "highload") => ex.seqno = UDec(e.seqno, 32)>>,
         <<"op",       (ex.ok /\ v5) => ex.op = (IF MsgTypeOf(e) = "int" THEN OpSignedInternal ELSE OpSignedExternal)>>,
         <<"xact",     ex.ok => ex.ext = XReq(e)>>,
@@ -162,14 +171,18 @@ SendChecks(e) ==
         <<"lib:otherkey", lb.verify2 # "ok" /\ (v5 => lb.v5verify2 # "ok")>>,
         <<"lib:decode",   /\ lb.dec = "ok"
                           /\ LibWid(ver, lb.wid) = WalletIdBits(ver, e.opts)
-                          /\ (IF Family(ver) = "highload" THEN SubSeq(UDec(lb.qid, 64), 1, 32) = UDec(e.vu, 32)
-                                                          ELSE lb.vu = e.vu /\ lb.seqno = e.seqno)
+                          /\ (IF Family(ver) = "highload" THEN ExpiryOK(e, SubSeq(UDec(lb.qid, 64), 1, 32))
+                                                          ELSE ExpiryOK(e, UDec(lb.vu, 32)) /\ lb.seqno = e.seqno)
+                          /\ (ex.ok => (IF Family(ver) = "highload" THEN SubSeq(UDec(lb.qid, 64), 1, 32) ELSE UDec(lb.vu, 32)) = ex.vu)
                           /\ (v5 => lb.st = (IF MsgTypeOf(e) = "int" THEN "SignedInternal" ELSE "SignedExternal"))
                           /\ (Has(lb, "xacts") => XActs(lb.xacts) = XReq(e))
                           /\ Len(lb.modes) = n /\ Len(lb.mrows) = n
-                          /\ [i \in 1..n |-> <<lb.modes[i], ReprHash(EI[lb.mrows[i] + 1])>>] = want>>,
+                          /\ Pairs(lb.modes, lb.mrows, EI) = want>>,
         <<"lib:extract",  /\ lb.xerr = "" /\ Len(lb.xmodes) = n /\ Len(lb.xrows) = n
-                          /\ [i \in 1..n |-> <<lb.xmodes[i], ReprHash(EI[lb.xrows[i] + 1])>>] = want>> >>
+                          /\ Pairs(lb.xmodes, lb.xrows, EI) = want>>,
+        \* the same operations as sequences on ONE cell object, in both orders (verify, extract, decode, verify, extract / decode,
+        \* extract, verify, decode, verify): every position must succeed and return the request, as on a fresh cell
+        <<"lib:seq",      Has(lb, "seq1") => (SeqOK(lb.seq1, EI, want) /\ SeqOK(lb.seq2, EI, want))>> >>
 
 \* -------------------------------------------------------------------- Flips
 \* {"k":"Flips","ver","pk","body":{cells},"orig":"ok","flips":[{"c":row,"bit":j,"lib":"rej|ok|panic","h":hex}]}
